@@ -416,6 +416,14 @@ func runDKG(t *testing.T, rc *RunCtx) {
 		}
 	}
 	out := c.spawnGenerate(initiator, "client1", path, uint32(th), uint32(n))
+	// A quarter of the valid multi-party runs start a second generation (another name, another initiator) at the
+	// same time; their messages interleave under the scheduler and both must end as consistent keys.
+	var outB *dkgOutcome
+	pathB := "Wallet 3/genB"
+	if valid && n > 1 && tamper == "" && ch.Pick(4, 0) == 3 {
+		outB = c.spawnGenerate(c.Nodes[ch.Pick(len(c.Nodes), 0)], "client2", pathB, uint32(th), uint32(n))
+		rc.Stats.Inc("concurrent_generations", 1)
+	}
 	outcome := s.Run()
 	rc.Stats.Inc("outcome_"+outcome, 1)
 	if outcome != "done" || !out.Done {
@@ -457,6 +465,16 @@ func runDKG(t *testing.T, rc *RunCtx) {
 			return
 		}
 		rc.Stats.Inc("successful_generations", 1)
+		if outB != nil {
+			if !outB.Done || outB.State != pb.ResponseState_SUCCEEDED {
+				rc.Violate("HARNESS", "vacuous-fault-free-generation-failed", fmt.Sprintf("a generation running concurrently with another one failed: %s", outB.Message), s.Step)
+				return
+			}
+			s.Direct(func() { c.checkGenerated("C12", pathB, uint32(th), parts, outB, s.Step) })
+			if len(rc.Viol) > 0 {
+				return
+			}
+		}
 		s.Direct(func() {
 			c.checkGenerated("C12", path, uint32(th), parts, out, s.Step)
 			for _, nd := range c.Nodes {
